@@ -5,6 +5,7 @@ package tor
 import (
 	"context"
 	"math/rand/v2"
+	"sync"
 	"time"
 
 	"github.com/jech/storrent/hash"
@@ -114,13 +115,49 @@ func verifAnnounce(h hash.Hash, ipv6 bool, port uint16) {
 	}
 }
 
-// VerifTickPeriod, when non-zero, replaces the period of the run loop's
-// two tickers (set before the torrent is added).
-var VerifTickPeriod time.Duration
+// VerifManualTicks, when set before a torrent is added, stops the run
+// loop's two tickers; VerifTick then fires them on demand.
+var VerifManualTicks bool
 
-func verifTickers(ticker, slowTicker *time.Ticker) {
-	if d := VerifTickPeriod; d > 0 {
-		ticker.Reset(d)
-		slowTicker.Reset(d)
+var verifTickerMap sync.Map // *Torrent -> [2]*time.Ticker
+
+const verifNever = 1000 * time.Hour
+
+func verifTickers(t *Torrent, ticker, slowTicker *time.Ticker) {
+	if VerifManualTicks {
+		ticker.Reset(verifNever)
+		slowTicker.Reset(verifNever)
+		verifTickerMap.Store(t, [2]*time.Ticker{ticker, slowTicker})
 	}
 }
+
+// VerifTickersReady reports whether the run loop of t has registered its
+// tickers.
+func VerifTickersReady(t *Torrent) bool {
+	_, ok := verifTickerMap.Load(t)
+	return ok
+}
+
+// VerifTick makes both tickers of t fire (on) or stops them again and
+// discards a tick that has not been consumed yet (off).  To be called while
+// the event loop is parked.
+func VerifTick(t *Torrent, on bool) {
+	v, ok := verifTickerMap.Load(t)
+	if !ok {
+		return
+	}
+	for _, tk := range v.([2]*time.Ticker) {
+		if on {
+			tk.Reset(time.Millisecond)
+		} else {
+			tk.Reset(verifNever)
+			select {
+			case <-tk.C:
+			default:
+			}
+		}
+	}
+}
+
+// VerifForget drops the ticker registration of t.
+func VerifForget(t *Torrent) { verifTickerMap.Delete(t) }
